@@ -265,21 +265,10 @@ pub fn set_condition_register_signed(
     lhs: Expression,
     rhs: Expression,
 ) -> Result<(), Error> {
-    let lt = Expression::ite(
-        Expression::cmplts(lhs.clone(), rhs.clone())?,
-        expr_const(0b0100, 4),
-        expr_const(0b0000, 4),
-    )?;
-    let gt = Expression::ite(
-        Expression::cmplts(rhs.clone(), lhs.clone())?,
-        expr_const(0b0010, 4),
-        expr_const(0b0000, 4),
-    )?;
-    let eq = Expression::ite(
-        Expression::cmplts(rhs, lhs)?,
-        expr_const(0b0001, 4),
-        expr_const(0b0000, 4),
-    )?;
+    // the flags are 1-bit scalars
+    let lt = Expression::cmplts(lhs.clone(), rhs.clone())?;
+    let gt = Expression::cmplts(rhs.clone(), lhs.clone())?;
+    let eq = Expression::cmpeq(lhs, rhs)?;
     block.assign(scalar(format!("{}-lt", condition_register.name()), 1), lt);
     block.assign(scalar(format!("{}-gt", condition_register.name()), 1), gt);
     block.assign(scalar(format!("{}-eq", condition_register.name()), 1), eq);
@@ -293,21 +282,10 @@ pub fn set_condition_register_unsigned(
     lhs: Expression,
     rhs: Expression,
 ) -> Result<(), Error> {
-    let lt = Expression::ite(
-        Expression::cmpltu(lhs.clone(), rhs.clone())?,
-        expr_const(0b0100, 4),
-        expr_const(0b0000, 4),
-    )?;
-    let gt = Expression::ite(
-        Expression::cmpltu(rhs.clone(), lhs.clone())?,
-        expr_const(0b0010, 4),
-        expr_const(0b0000, 4),
-    )?;
-    let eq = Expression::ite(
-        Expression::cmpltu(rhs, lhs)?,
-        expr_const(0b0001, 4),
-        expr_const(0b0000, 4),
-    )?;
+    // the flags are 1-bit scalars
+    let lt = Expression::cmpltu(lhs.clone(), rhs.clone())?;
+    let gt = Expression::cmpltu(rhs.clone(), lhs.clone())?;
+    let eq = Expression::cmpeq(lhs, rhs)?;
     block.assign(scalar(format!("{}-lt", condition_register.name()), 1), lt);
     block.assign(scalar(format!("{}-gt", condition_register.name()), 1), gt);
     block.assign(scalar(format!("{}-eq", condition_register.name()), 1), eq);
@@ -754,16 +732,33 @@ pub fn bctr(control_flow_graph: &mut ControlFlowGraph, _: &capstone::Instr) -> R
     Ok(())
 }
 
+/// Operands of cmpwi/cmplwi: capstone omits the CR field when it is cr0.
+fn compare_immediate_operands(
+    detail: &capstone::cs_ppc,
+) -> Result<(Scalar, Expression, Expression), Error> {
+    if detail.op_count >= 3 {
+        Ok((
+            get_register(detail.operands[0].reg())?.scalar(),
+            get_register(detail.operands[1].reg())?.expression(),
+            expr_const(detail.operands[2].imm() as u64, 32),
+        ))
+    } else {
+        Ok((
+            scalar("cr0", 32),
+            get_register(detail.operands[0].reg())?.expression(),
+            expr_const(detail.operands[1].imm() as u64, 32),
+        ))
+    }
+}
+
 pub fn cmpwi(
     control_flow_graph: &mut ControlFlowGraph,
     instruction: &capstone::Instr,
 ) -> Result<(), Error> {
     let detail = details(instruction)?;
 
-    // get operands
-    let cr = get_register(detail.operands[0].reg())?.scalar();
-    let lhs = get_register(detail.operands[1].reg())?.expression();
-    let rhs = expr_const(detail.operands[2].imm() as u64, 32);
+    // get operands: `cmpwi crN, rA, imm`, or `cmpwi rA, imm` for CR field 0
+    let (cr, lhs, rhs) = compare_immediate_operands(&detail)?;
 
     let block_index = {
         let block = control_flow_graph.new_block()?;
@@ -785,10 +780,8 @@ pub fn cmplwi(
 ) -> Result<(), Error> {
     let detail = details(instruction)?;
 
-    // get operands
-    let cr = get_register(detail.operands[0].reg())?.scalar();
-    let lhs = get_register(detail.operands[1].reg())?.expression();
-    let rhs = expr_const(detail.operands[2].imm() as u64, 32);
+    // get operands: `cmpwi crN, rA, imm`, or `cmpwi rA, imm` for CR field 0
+    let (cr, lhs, rhs) = compare_immediate_operands(&detail)?;
 
     let block_index = {
         let block = control_flow_graph.new_block()?;
